@@ -542,6 +542,18 @@ func (g *vGenSess) double() {
 			}
 		}
 	}
+	// silence ladder for a lite controlled agent: nothing is delivered any more while the clock climbs in steps over
+	// every liveness threshold (lite defaults: disconnected 10 s, failed 25 s; explicit zeros disable)
+	if liteB && (g.focus == "C04" || r.chance(1, 2)) {
+		g.o.stat("phase.silenceladder")
+		for i := 0; i < 18; i++ {
+			g.op("adv %d", []int{2500, 2500, 5000}[r.intn(3)])
+			for g.inflight > 0 {
+				g.op("drop 0")
+				g.inflight--
+			}
+		}
+	}
 	if r.chance(1, 3) {
 		g.op("close A")
 		g.op("write A 10 0")
